@@ -41,6 +41,13 @@ def run(ctx) -> None:
     ctx.rule("ERR3", "collected errors returned", floor=40)
 
     battery = check_reg(ctx)
+    # the stacking passes run BEFORE the verification battery: a silent de-duplication keyed by an attribute hides a duplicate
+    # (e.g. two invariants with one description) from the uniqueness checks (shared with C05)
+    ctx.rule("MERGE", "inherited collections are de-duplicated by identity only (shared with C05)", floor=2)
+    from . import c05 as _c05
+    for _f in p.module("intermediate._translate").functions.values():
+        if _f.name.startswith("_second_pass_to_stack"):
+            _c05._check_merges(ctx, _f)
 
     anchor.check_anchor_agreement(ctx, "ANCHOR-ATOMS")
     translate = p.func("intermediate._translate:translate")
